@@ -77,6 +77,39 @@ def pattern_py(w, term):
     return conv(t)
 
 
+def pattern_of_text(text):
+    """independent reader for pattern texts (single letters, round brackets, one slash per level)"""
+    import re
+    toks = [t for t in re.split(r'([()/\\|])', text.replace(' ', '')) if t]
+    pos = 0
+
+    def operand():
+        nonlocal pos
+        if toks[pos] == '(':
+            pos += 1
+            e = expr()
+            if toks[pos] != ')':
+                raise CheckerError(f'bad pattern text {text}')
+            pos += 1
+            return e
+        v = toks[pos]
+        pos += 1
+        return ('atom', v)
+
+    def expr():
+        nonlocal pos
+        l = operand()
+        if pos < len(toks) and toks[pos] in '/\\|':
+            s = toks[pos]
+            pos += 1
+            return ('fun', l, s, operand())
+        return l
+    e = expr()
+    if pos != len(toks):
+        raise CheckerError(f'bad pattern text {text}')
+    return e
+
+
 def spec_match(w, p, t):
     """shape condition and the bindings (in scan order) of pattern p against the symbolic category t"""
     if p[0] == 'atom':
@@ -349,6 +382,9 @@ def loop_summary(I, st, env, module, qual):
             hyp = [cond, w.hasfeat(sx, a), w.hasfeat(sy, b), inv_m(w, M0, sx, sy)(f0)]
             obligations.append(('inv-step', z3.Implies(z3.And(*hyp), inv_m(w, M1, sx, sy)(f0)), 'mapping invariant preserved by a normal iteration'))
             obligations.append(('inv-step', z3.BoolVal(succ is True), 'a normal iteration leaves success == True'))
+            from contracts.grammar import idm_at
+            obligations.append(('inv-step', z3.Implies(z3.And(cond, a == b, idm_at(w, M0, f0)), idm_at(w, M1, f0)),
+                                'identical compared features keep the mapping an identity'))
         elif o['kind'] == 'return':
             if not (val is True or val is False or val is None):
                 raise CheckerError('loop body returns a symbolic value')
@@ -655,7 +691,13 @@ class UniCall(Contract):
             cats = obj.attrs['cats']
             ok_cats = [z3.BoolVal(set(cats) == set(last))] + [cats[v].e == last[v] for v in last if v in cats]
             m = obj.attrs['mapping']
-            ok_map = inv_m(w, m.arr, x, y)(f1)
+            from contracts.grammar import idm_at
+            all_eq = z3.And(*[tx == ty for _, tx, ty in shared]) if shared else z3.BoolVal(True)
+            for fct in facts:
+                if fct['kind'] == 'inv_m':
+                    # invariant `all compared pairs equal ==> mapping is an identity` at loop exit (init: empty map; step: summary obligation)
+                    hyps.append(z3.Implies(all_eq, idm_at(w, fct['M'], f1)))
+            ok_map = z3.And(inv_m(w, m.arr, x, y)(f1), z3.Implies(all_eq, idm_at(w, m.arr, f1)))
             return z3.Implies(z3.And(*hyps) if hyps else z3.BoolVal(True), z3.And(match_sk, z3.BoolVal(all(state)), *ok_cats, ok_map))
         if result is False:
             # not Match: it suffices to refute Match with AC instantiated at one index (Match implies every instance)
@@ -696,9 +738,14 @@ class UniCall(Contract):
             obj.attrs['mapping'] = SymMap(M)
             obj.attrs['cats'] = {v: Z(t) for v, t in last.items()}
             obj.attrs['success'] = True
-            I.ctx.assume(inv_m_forall(w, M, x.e, y.e))
+            from contracts.grammar import INVM, IDM
+            I.ctx.assume(INVM(w, M, x.e, y.e))        # opaque; its definition (forall f. inv_m(f)) is the postcondition proved in C06
+            if shared:
+                I.ctx.assume(z3.Implies(z3.And(*[tx == ty for _, tx, ty in shared]), IDM(w, M)))
+            else:
+                I.ctx.assume(IDM(w, M))               # nothing was compared: the mapping is empty
             I.uni_maps = getattr(I, 'uni_maps', [])
-            I.uni_maps.append((M, x.e, y.e))
+            I.uni_maps.append((M, x.e, y.e, list(last.values())))
             return True
         obj.attrs['success'] = False
         return False
